@@ -313,6 +313,13 @@ def random_spec(r, regime="calibrated", features=None):
             for pop in pops:
                 if dpar["value"][pop] * ts_ / dt > f["max_rows"]:
                     dpar["value"][pop] = f["max_rows"] * dt / ts_ * r.choice([1.0, 0.9, 0.5])
+        if f.get("dur_function") and r.random() < f["dur_function"]:
+            # C05: the duration is given by a function of another (non-transition) parameter and ALSO has a databook value, which the function supersedes
+            base = newpar("duration", timescale=dpar["timescale"])
+            base["name"] = f"xb{g}"
+            base["value"] = {pop: dpar["value"][pop] / 2 for pop in pops}
+            dpar["function"] = f"2*xb{g}"
+            dpar["value"] = {pop: dpar["value"][pop] * 1.6 for pop in pops}
         for mname in members:
             comps.append({"name": mname, "kind": "normal", "databook": True, "init": popvals(5, 300)})
             timed_comps[mname] = dpar["name"]
@@ -474,6 +481,7 @@ def random_spec(r, regime="calibrated", features=None):
         trans2.append([s, d, p])
     trans = trans2
     used = {t[2] for t in trans}
+    used |= {p["function"][2:] for p in pars if p.get("timed") and p.get("function") and p["name"] in used}  # the base parameter of a duration given by a function (dur_function)
     # functions on some transition parameters
     characs = [{"name": "alive", "components": stocks, "denominator": None, "databook": False}]
     if f.get("functions", r.random() < 0.6):
